@@ -14,10 +14,15 @@ pub const ALPHA_B: &[char] = &['x', 'O', 'p', '\'', '-', '+', 'é', '😀', '\r'
 /// byte order mark, the rarer members of the lexer's whitespace set, a unit, a statement
 pub const ALPHA_C: &[char] = &['\u{feff}', '\u{000B}', '\u{0085}', '\u{2028}', 'x', '2', 's', ';', '\t'];
 
+/// the characters at the boundaries of the UTF-8 encoding lengths (1|2, 2|3, 3|4 bytes, the last code
+/// point), two blanks outside the lexer's whitespace set, and three ASCII neighbours
+pub const ALPHA_D: &[char] = &['\u{7f}', '\u{80}', '\u{81}', '\u{7ff}', '\u{800}', '\u{ffff}', '\u{10000}', '\u{10ffff}', '\u{a0}', '\u{3000}', ' ', 'a', '1'];
+
 fn alpha(id: &str) -> &'static [char] {
     match id {
         "A" => ALPHA_A,
         "C" => ALPHA_C,
+        "D" => ALPHA_D,
         _ => ALPHA_B,
     }
 }
@@ -215,7 +220,7 @@ impl Property for C14 {
         let mut v = Vec::new();
         let la = tier.pick(5, 6);
         let lb = tier.pick(4, 5);
-        for (id, maxlen) in [("A", la), ("B", lb), ("C", lb)] {
+        for (id, maxlen) in [("A", la), ("B", lb), ("C", lb), ("D", lb)] {
             let n = alpha(id).len() as u64;
             for len in 0..=maxlen {
                 let id2 = id.to_string();
